@@ -130,3 +130,347 @@ theorem wfName_facts (li : Nat) (nm : PName) (h : wfName li nm = true) :
     · simp [propLi, PName.ns, PName.name, PName.nextLi, isLiName]
 
 end RdfModel.RX
+
+namespace RdfModel.RX
+open RdfModel RdfModel.Desc
+
+variable (rs : Str → Str → Str)
+
+/-! ### node element names and the subject record -/
+
+theorem Subj.info_fields (sc : Scope) (props : List Attr) (subj : Subj) :
+    (subj.info sc props).props = props ∧ (subj.info sc props).bad = false ∧
+    (subj.info sc props).unsup = false ∧ (subj.info sc props).resource = none ∧
+    (subj.info sc props).datatype = none ∧ (subj.info sc props).parseType = none ∧
+    (subj.info sc props).base = sc.base ∧ (subj.info sc props).lang = sc.lang := by
+  cases subj <;> simp [Subj.info]
+
+theorem wfTyp_facts (s : Term BN) (typ : Option (Str × Str)) (h : wfTyp typ = true) :
+    ¬(typNs typ = rdfNS ∧ badNodeName (typName typ) = true) ∧
+    typeTriple s (typNs typ) (typName typ) = typTriple s typ := by
+  cases typ with
+  | none =>
+    refine ⟨?_, ?_⟩
+    · simp only [typNs, typName, not_and, Bool.not_eq_true]; intro _; decide
+    · simp [typeTriple, typTriple, typNs, typName]
+  | some p =>
+    obtain ⟨ns, name⟩ := p
+    simp only [wfTyp, Bool.and_eq_true, Bool.not_eq_true', decide_eq_true_eq, Bool.and_eq_false_iff,
+      Bool.or_eq_false_iff, decide_eq_false_iff_not] at h
+    obtain ⟨_, h3⟩ := h
+    refine ⟨?_, ?_⟩
+    · simp only [typNs, typName, not_and, Bool.not_eq_true]
+      intro hns
+      rcases h3 with h3 | h3
+      · exact absurd hns h3
+      · exact h3.1
+    · have : ¬(ns = rdfNS ∧ name = n_Description) := by
+        intro ⟨h1, h2⟩
+        rcases h3 with h3 | h3
+        · exact h3 h1
+        · exact h3.2 h2
+      simp [typeTriple, typTriple, typNs, typName, this]
+
+theorem textOnly_renderNode (n : PNode) (ks : List Node) : textOnly (renderNode n :: ks) = none := by
+  cases n; simp [renderNode, textOnly]
+
+theorem resKids_single (env : Env) (n : PNode) (st st1 : St) (o : Term BN) (ts : List T)
+    (h : nodeElt rs env (renderNode n) st = .ok (o, ts, st1)) :
+    resKids rs env [renderNode n] st = .ok (some (o, ts), st1) := by
+  cases n
+  simp only [renderNode] at h ⊢
+  simp only [resKids, h]
+
+/-! ### the round trip -/
+
+mutual
+
+theorem nodeElt_render : ∀ (n : PNode) (env : Env) (st st' : St), wfNode rs env st n = some st' →
+    nodeElt rs env (renderNode n) st = .ok (n.subj, flatNode n, st')
+  | .mk sc subj typ pattrs props, env, st, st', h => by
+    simp only [wfNode] at h
+    split at h
+    · rename_i hc
+      simp only [Bool.and_eq_true] at hc
+      obtain ⟨htyp, hpa⟩ := hc
+      obtain ⟨ht1, ht2⟩ := wfTyp_facts subj.term typ htyp
+      obtain ⟨f1, f2, f3, f4, f5, f6, f7, f8⟩ := Subj.info_fields sc (pattrs.map PAttr.render) subj
+      cases hs : wfSubj rs (env.push rs sc.base sc.lang) st subj with
+      | none => rw [hs] at h; exact absurd h (by simp)
+      | some st1 =>
+        rw [hs] at h
+        have hsub := wfSubj_subjectOf rs _ sc (pattrs.map PAttr.render) subj st st1 hs
+        have hpl := propList_render props (env.push rs sc.base sc.lang) subj.term 0 st1 st' h
+        simp only [renderNode, nodeElt]
+        rw [info_stdAttrs _ (by rw [f1]; exact wfPAttrs_isProp rs _ pattrs hpa) f2 f3]
+        simp only [ht1, if_false, f1, f2, f3, f4, f5, f6, f7, f8, hsub, hpl, ht2,
+          wfPAttrs_triples rs _ subj.term pattrs hpa]
+        simp [PNode.subj, flatNode]
+    · exact absurd h (by simp)
+
+theorem propList_render : ∀ (ps : List PProp) (env : Env) (s : Term BN) (li : Nat) (st st' : St),
+    wfProps rs env li st ps = some st' →
+    propList rs env s (renderProps ps) li st = .ok (flatProps s ps, st')
+  | [], env, s, li, st, st', h => by
+    simp only [wfProps, Option.some.injEq] at h
+    simp [renderProps, propList, flatProps, h]
+  | p :: ps, env, s, li, st, st', h => by
+    simp only [wfProps] at h
+    cases hp : wfProp rs env li st p with
+    | none => rw [hp] at h; exact absurd h (by simp)
+    | some r =>
+      obtain ⟨li1, st1⟩ := r
+      rw [hp] at h
+      have h1 := propElt_render p env s li st li1 st1 hp
+      have h2 := propList_render ps env s li1 st1 st' h
+      simp only [renderProps, propList, h1, h2, flatProps]
+
+theorem propElt_render : ∀ (p : PProp) (env : Env) (s : Term BN) (li : Nat) (st : St) (li' : Nat) (st' : St),
+    wfProp rs env li st p = some (li', st') →
+    propElt rs env s (renderProp p) li st = .ok (flatProp s p, li', st')
+  | .lit sc nm id lex lang, env, s, li, st, li', st', h => by
+    simp only [wfProp] at h
+    split at h
+    · rename_i hc
+      simp only [Bool.and_eq_true, decide_eq_true_eq, ne_eq, decide_not, Bool.not_eq_true',
+        decide_eq_false_iff_not] at hc
+      obtain ⟨⟨hn, hlex⟩, hlang⟩ := hc
+      obtain ⟨hn1, hn2, hn3⟩ := wfName_facts li nm hn
+      cases hid : wfId rs (env.push rs sc.base sc.lang) id st with
+      | none => rw [hid] at h; exact absurd h (by simp)
+      | some st0 =>
+        rw [hid] at h
+        simp only [Option.map, Option.some.injEq, Prod.mk.injEq] at h
+        have hoid := wfId_optId rs _ id st st0 hid
+        simp only [renderProp, propElt]
+        rw [info_stdAttrs _ (by simp) rfl rfl]
+        simp only [hn1, if_false, hn2, hn3, hoid]
+        cases lex with
+        | nil => exact absurd rfl hlex
+        | cons c cs => simp [textOnly, flatProp, hlang, h.1, h.2]
+    · exact absurd h (by simp)
+  | .typed sc nm id lex dt ref, env, s, li, st, li', st', h => by
+    simp only [wfProp] at h
+    split at h
+    · rename_i hc
+      simp only [Bool.and_eq_true, decide_eq_true_eq, ne_eq, decide_not, Bool.not_eq_true',
+        decide_eq_false_iff_not] at hc
+      obtain ⟨⟨hn, hlex⟩, hdt⟩ := hc
+      obtain ⟨hn1, hn2, hn3⟩ := wfName_facts li nm hn
+      cases hid : wfId rs (env.push rs sc.base sc.lang) id st with
+      | none => rw [hid] at h; exact absurd h (by simp)
+      | some st0 =>
+        rw [hid] at h
+        simp only [Option.map, Option.some.injEq, Prod.mk.injEq] at h
+        have hoid := wfId_optId rs _ id st st0 hid
+        simp only [renderProp, propElt]
+        rw [info_stdAttrs _ (by simp) rfl rfl]
+        simp only [hn1, if_false, hn2, hn3, hoid]
+        cases lex with
+        | nil => exact absurd rfl hlex
+        | cons c cs => simp [textOnly, flatProp, hdt, h.1, h.2]
+    · exact absurd h (by simp)
+  | .empty sc nm id lang, env, s, li, st, li', st', h => by
+    simp only [wfProp] at h
+    split at h
+    · rename_i hc
+      simp only [Bool.and_eq_true, decide_eq_true_eq] at hc
+      obtain ⟨hn, hlang⟩ := hc
+      obtain ⟨hn1, hn2, hn3⟩ := wfName_facts li nm hn
+      cases hid : wfId rs (env.push rs sc.base sc.lang) id st with
+      | none => rw [hid] at h; exact absurd h (by simp)
+      | some st0 =>
+        rw [hid] at h
+        simp only [Option.map, Option.some.injEq, Prod.mk.injEq] at h
+        have hoid := wfId_optId rs _ id st st0 hid
+        simp only [renderProp, propElt]
+        rw [info_stdAttrs _ (by simp) rfl rfl]
+        simp only [hn1, if_false, hn2, hn3, hoid]
+        simp [textOnly, flatProp, hlang, h.1, h.2]
+    · exact absurd h (by simp)
+  | .res sc nm id iri ref pattrs, env, s, li, st, li', st', h => by
+    simp only [wfProp] at h
+    split at h
+    · rename_i hc
+      simp only [Bool.and_eq_true, decide_eq_true_eq] at hc
+      obtain ⟨⟨hn, href⟩, hpa⟩ := hc
+      obtain ⟨hn1, hn2, hn3⟩ := wfName_facts li nm hn
+      cases hid : wfId rs (env.push rs sc.base sc.lang) id st with
+      | none => rw [hid] at h; exact absurd h (by simp)
+      | some st0 =>
+        rw [hid] at h
+        simp only [Option.map, Option.some.injEq, Prod.mk.injEq] at h
+        have hoid := wfId_optId rs _ id st st0 hid
+        simp only [renderProp, propElt]
+        rw [info_stdAttrs _ (wfPAttrs_isProp rs _ pattrs hpa) rfl rfl]
+        simp only [hn1, if_false, hn2, hn3, hoid]
+        simp [textOnly, flatProp, emptyObj, href, h.1, h.2, wfPAttrs_triples rs _ _ pattrs hpa]
+    · exact absurd h (by simp)
+  | .bref sc nm id l pattrs, env, s, li, st, li', st', h => by
+    simp only [wfProp] at h
+    split at h
+    · rename_i hc
+      simp only [Bool.and_eq_true] at hc
+      obtain ⟨⟨hn, hl⟩, hpa⟩ := hc
+      obtain ⟨hn1, hn2, hn3⟩ := wfName_facts li nm hn
+      cases hid : wfId rs (env.push rs sc.base sc.lang) id st with
+      | none => rw [hid] at h; exact absurd h (by simp)
+      | some st0 =>
+        rw [hid] at h
+        simp only [Option.map, Option.some.injEq, Prod.mk.injEq] at h
+        have hoid := wfId_optId rs _ id st st0 hid
+        simp only [renderProp, propElt]
+        rw [info_stdAttrs _ (wfPAttrs_isProp rs _ pattrs hpa) rfl rfl]
+        simp only [hn1, if_false, hn2, hn3, hoid]
+        simp [textOnly, flatProp, emptyObj, hl, h.1, h.2, wfPAttrs_triples rs _ _ pattrs hpa]
+    · exact absurd h (by simp)
+  | .banon sc nm id n dt pattrs, env, s, li, st, li', st', h => by
+    simp only [wfProp] at h
+    split at h
+    · rename_i hc
+      simp only [Bool.and_eq_true, Bool.or_eq_true, Bool.not_eq_true'] at hc
+      obtain ⟨⟨hn, hne⟩, hpa⟩ := hc
+      obtain ⟨hn1, hn2, hn3⟩ := wfName_facts li nm hn
+      cases hid : wfId rs (env.push rs sc.base sc.lang) id st with
+      | none => rw [hid] at h; exact absurd h (by simp)
+      | some st0 =>
+        rw [hid] at h
+        simp only at h
+        split at h
+        · rename_i hnn
+          simp only [Option.some.injEq, Prod.mk.injEq] at h
+          have hoid := wfId_optId rs _ id st st0 hid
+          simp only [renderProp, propElt]
+          rw [info_stdAttrs _ (wfPAttrs_isProp rs _ pattrs hpa) rfl rfl]
+          simp only [hn1, if_false, hn2, hn3, hoid]
+          have hcond : (dt.isNone && (List.map PAttr.render pattrs).isEmpty) = false := by
+            rcases hne with hne | hne
+            · cases dt <;> simp_all
+            · cases pattrs <;> simp_all
+          subst hnn
+          simp [textOnly, flatProp, emptyObj, hcond, h.1, ← h.2, wfPAttrs_triples rs _ _ pattrs hpa]
+          intro hd hp
+          subst hd hp
+          simp at hne
+        · exact absurd h (by simp)
+    · exact absurd h (by simp)
+  | .node sc nm id n, env, s, li, st, li', st', h => by
+    simp only [wfProp] at h
+    split at h
+    · rename_i hn
+      obtain ⟨hn1, hn2, hn3⟩ := wfName_facts li nm hn
+      cases hid : wfId rs (env.push rs sc.base sc.lang) id st with
+      | none => rw [hid] at h; exact absurd h (by simp)
+      | some st0 =>
+        rw [hid] at h
+        simp only at h
+        cases hnd : wfNode rs (env.push rs sc.base sc.lang) st0 n with
+        | none => rw [hnd] at h; exact absurd h (by simp)
+        | some st1 =>
+          rw [hnd] at h
+          simp only [Option.map, Option.some.injEq, Prod.mk.injEq] at h
+          have hoid := wfId_optId rs _ id st st0 hid
+          have hne := nodeElt_render n (env.push rs sc.base sc.lang) st0 st1 hnd
+          have hrk := resKids_single rs _ n st0 st1 _ _ hne
+          simp only [renderProp, propElt]
+          rw [info_stdAttrs _ (by simp) rfl rfl]
+          simp only [hn1, if_false, hn2, hn3, hoid, textOnly_renderNode, hrk]
+          simp [flatProp, h.1, h.2]
+    · exact absurd h (by simp)
+  | .ptRes sc nm id n props, env, s, li, st, li', st', h => by
+    simp only [wfProp] at h
+    split at h
+    · rename_i hn
+      obtain ⟨hn1, hn2, hn3⟩ := wfName_facts li nm hn
+      cases hid : wfId rs (env.push rs sc.base sc.lang) id st with
+      | none => rw [hid] at h; exact absurd h (by simp)
+      | some st0 =>
+        rw [hid] at h
+        simp only at h
+        split at h
+        · rename_i hnn
+          cases hps : wfProps rs (env.push rs sc.base sc.lang) 0 { st0 with next := st0.next + 1 } props with
+          | none => rw [hps] at h; exact absurd h (by simp)
+          | some st1 =>
+            rw [hps] at h
+            simp only [Option.map, Option.some.injEq, Prod.mk.injEq] at h
+            have hoid := wfId_optId rs _ id st st0 hid
+            have hpl := propList_render props (env.push rs sc.base sc.lang) (.bnode (.gen st0.next)) 0 _ st1 hps
+            simp only [renderProp, propElt]
+            rw [info_stdAttrs _ (by simp) rfl rfl]
+            simp only [hn1, if_false, hn2, hn3, hoid]
+            subst hnn
+            simp [flatProp, hpl, h.1, h.2]
+        · exact absurd h (by simp)
+    · exact absurd h (by simp)
+  | .ptColl sc nm id cells items, env, s, li, st, li', st', h => by
+    simp only [wfProp] at h
+    split at h
+    · rename_i hn
+      obtain ⟨hn1, hn2, hn3⟩ := wfName_facts li nm hn
+      cases hid : wfId rs (env.push rs sc.base sc.lang) id st with
+      | none => rw [hid] at h; exact absurd h (by simp)
+      | some st0 =>
+        rw [hid] at h
+        simp only at h
+        cases hcl : wfColl rs (env.push rs sc.base sc.lang) st0 cells items with
+        | none => rw [hcl] at h; exact absurd h (by simp)
+        | some st1 =>
+          rw [hcl] at h
+          simp only [Option.map, Option.some.injEq, Prod.mk.injEq] at h
+          have hoid := wfId_optId rs _ id st st0 hid
+          have hck := collKids_render cells items (env.push rs sc.base sc.lang) s nm.pred st0 st1 hcl
+          simp only [renderProp, propElt]
+          rw [info_stdAttrs _ (by simp) rfl rfl]
+          simp only [hn1, if_false, hn2, hn3, hoid]
+          have hne : n_Collection ≠ n_Resource := by decide
+          simp [flatProp, hck, hne, h.1, h.2]
+    · exact absurd h (by simp)
+  | .ptLit sc nm id pt content, env, s, li, st, li', st', h => by
+    simp only [wfProp] at h
+    split at h
+    · rename_i hc
+      simp only [Bool.and_eq_true, decide_eq_true_eq, ne_eq, decide_not, Bool.not_eq_true',
+        decide_eq_false_iff_not] at hc
+      obtain ⟨⟨hn, hp1⟩, hp2⟩ := hc
+      obtain ⟨hn1, hn2, hn3⟩ := wfName_facts li nm hn
+      cases hid : wfId rs (env.push rs sc.base sc.lang) id st with
+      | none => rw [hid] at h; exact absurd h (by simp)
+      | some st0 =>
+        rw [hid] at h
+        simp only [Option.map, Option.some.injEq, Prod.mk.injEq] at h
+        have hoid := wfId_optId rs _ id st st0 hid
+        simp only [renderProp, propElt]
+        rw [info_stdAttrs _ (by simp) rfl rfl]
+        simp only [hn1, if_false, hn2, hn3, hoid]
+        simp [rawOnly, flatProp, hp1, hp2, h.1, h.2]
+    · exact absurd h (by simp)
+
+theorem collKids_render : ∀ (cells : List Nat) (items : List PNode) (env : Env) (s : Term BN) (p : Str)
+    (st st' : St), wfColl rs env st cells items = some st' →
+    collKids rs env s p (renderNodes items) st = .ok (flatColl s p cells items, st')
+  | [], [], env, s, p, st, st', h => by
+    simp only [wfColl, Option.some.injEq] at h
+    simp [renderNodes, collKids, flatColl, h]
+  | c :: cs, [], env, s, p, st, st', h => by simp [wfColl] at h
+  | [], n :: ns, env, s, p, st, st', h => by simp [wfColl] at h
+  | c :: cs, n :: ns, env, s, p, st, st', h => by
+    simp only [wfColl] at h
+    split at h
+    · rename_i hc
+      cases hnd : wfNode rs env { st with next := st.next + 1 } n with
+      | none => rw [hnd] at h; exact absurd h (by simp)
+      | some st1 =>
+        rw [hnd] at h
+        simp only at h
+        have hne := nodeElt_render n env _ st1 hnd
+        have hck := collKids_render cs ns env (.bnode (.gen st.next)) rdfRest st1 st' h
+        subst hc
+        cases n
+        simp only [renderNode] at hne
+        simp only [renderNodes, renderNode, collKids, hne, hck, flatColl]
+    · exact absurd h (by simp)
+
+end
+
+end RdfModel.RX
